@@ -13,6 +13,9 @@ OBLIGATIONS = [
     "KafVerif.C25.gate_fetch",
     "KafVerif.C25.gate_code_degraded_retriable",
     "KafVerif.C25.gate_code_unavailable_not_retriable",
+    "KafVerif.C25.ack_saw_healthy",
+    "KafVerif.C25.unhealthy_rest_rejected",
+    "KafVerif.C25.once_per_request_violates",
 ]
 BUILDS = {
     "h": ("root", "./cmd/verif_c25", ["C25"]),
@@ -180,10 +183,32 @@ def run(ck):
     report_diff(ck, "truncateLocked/recomputeLocked exact histories", eops, impl, model)
     # ---- 3. the handler gate
     gops = ["gate %s %d" % (st, acks) for st in ("healthy", "degraded", "unavailable") for acks in (-1, 1, 0)]
+    # one multi-partition produce that starts healthy and crosses the threshold part-way (upload of partition failAt fails)
+    gops += ["cross %d %d %d" % (n, at, acks) for n in (2, 3, 4) for at in range(n + 1) for acks in (-1, 1)]
     impl, model = run_pair(ck, bins["b"], {"VERIF_HARNESS": "C25"}, gops, None, "gate")
     if impl is None:
         return
     for op, o in zip(gops, impl):
+        if op.startswith("cross"):
+            _, n, at, acks = op.split()
+            n, at = int(n), int(at)
+            ck.count("cross:" + ("crossing" if at < n else "no-failure"))
+            ck.case(op, sample={"op": op, "impl": o} if at == 1 else None)
+            if not o.startswith("cross "):
+                ck.broke("gate harness failed", op + " -> " + o)
+                continue
+            f = kv(o)
+            codes, app = f["codes"].split(","), f["appended"].split(",")
+            if at < n and f["final"] == "healthy":
+                ck.broke("cross scenario did not leave healthy", op + " -> " + o)
+            for i in range(at + 1, n):
+                if codes[i] == "0" or app[i] == "1":
+                    ck.violation("produce-acknowledged-after-rating-left-healthy",
+                                 "one produce over %d partitions: the upload of partition %d failed and S3 was rated %s, yet partition %d of the "
+                                 "same request was %s" % (n, at, f["final"], i, "acknowledged (code 0)" if codes[i] == "0" else "appended"),
+                                 {"ops": [op], "actual": o})
+                    break
+            continue
         st = op.split()[1]
         ck.count("gate:" + st)
         ck.case(op, sample={"op": op, "impl": o})
@@ -216,7 +241,7 @@ def replay(ck, path):
     if bins is None:
         return
     ops = rep["ops"]
-    gate = ops[0].startswith("gate")
+    gate = ops[0].startswith("gate") or ops[0].startswith("cross")
     impl, model = run_pair(ck, bins["b" if gate else "h"], {"VERIF_HARNESS": "C25"} if gate else None, ops, None, "replay")
     if impl is None:
         return
@@ -224,7 +249,11 @@ def replay(ck, path):
         print("  %s\n    impl : %s\n    model: %s" % (op[:150], o, m))
         ck.case(op, sample={"op": op[:150], "impl": o})
     ck.cov["distinct_nontrivial"] = max(ck.cov["distinct_nontrivial"], 2)
-    if gate:
+    if gate and ops[0].startswith("cross"):
+        for op, o, m in zip(ops, impl, model):
+            if o != m:
+                ck.violation(rep.get("fingerprint", "produce-acknowledged-after-rating-left-healthy"), rep.get("what", o), {"ops": ops, "actual": o})
+    elif gate:
         for op, o in zip(ops, impl):
             f = kv(o)
             if op.split()[1] != "healthy" and (f.get("retriable") != "all" or f.get("appended") != "false" or f.get("records") != "0"):
